@@ -2,7 +2,7 @@
  * CONTENT of large copied ranges (CBMC's precise library models blow up for symbolic lengths).
  *
  *   n <= 32          : byte-precise (covers MEM_read/write, ZSTD_copy8/16, header fields)
- *   n  > 32          : asserts that [s,s+n) is readable and [d,d+n) writable (so every out-of-bounds
+ *   n  > 32          : the first 16 bytes are copied exactly (format headers); asserts that [s,s+n) is readable and [d,d+n) writable (so every out-of-bounds
  *                      copy is still an obligation failure), then overwrites ONE nondeterministically
  *                      chosen byte of the destination range with a nondeterministic value.
  * Consequence: any claim about a byte inside a large copied range cannot be proved (the solver may pick
@@ -15,6 +15,9 @@ unsigned char nondet_mem_byte(void);
 size_t nondet_mem_index(void);
 
 #define PRECISE_MAX 32
+#define HEAD_PRECISE 16
+#define H16(D, S) D[0]=S[0]; D[1]=S[1]; D[2]=S[2]; D[3]=S[3]; D[4]=S[4]; D[5]=S[5]; D[6]=S[6]; D[7]=S[7]; \
+                  D[8]=S[8]; D[9]=S[9]; D[10]=S[10]; D[11]=S[11]; D[12]=S[12]; D[13]=S[13]; D[14]=S[14]; D[15]=S[15];
 #define B1(i) if (n > (i)) dd[i] = ss[i];
 #define COPY32 B1(0) B1(1) B1(2) B1(3) B1(4) B1(5) B1(6) B1(7) B1(8) B1(9) B1(10) B1(11) B1(12) B1(13) B1(14) B1(15) \
                B1(16) B1(17) B1(18) B1(19) B1(20) B1(21) B1(22) B1(23) B1(24) B1(25) B1(26) B1(27) B1(28) B1(29) B1(30) B1(31)
@@ -32,8 +35,13 @@ void* memcpy(void* d, const void* s, size_t n)
     }
     __CPROVER_assert(__CPROVER_r_ok(s, n), "memcpy: source range readable");
     __CPROVER_assert(__CPROVER_w_ok(d, n), "memcpy: destination range writable");
+    {   unsigned char head[HEAD_PRECISE]; unsigned i_;
+        /* the first HEAD_PRECISE bytes stay exact (format headers), one byte of the rest is havocked */
+        H16(head, ss) H16(dd, head)
+        (void)i_;
+    }
     {   size_t const k = nondet_mem_index();
-        __CPROVER_assume(k < n);
+        __CPROVER_assume(k >= HEAD_PRECISE && k < n);
         dd[k] = nondet_mem_byte();
     }
     return d;
@@ -53,8 +61,13 @@ void* memmove(void* d, const void* s, size_t n)
     }
     __CPROVER_assert(__CPROVER_r_ok(s, n), "memmove: source range readable");
     __CPROVER_assert(__CPROVER_w_ok(d, n), "memmove: destination range writable");
+    {   unsigned char head[HEAD_PRECISE]; unsigned i_;
+        /* the first HEAD_PRECISE bytes stay exact (format headers), one byte of the rest is havocked */
+        H16(head, ss) H16(dd, head)
+        (void)i_;
+    }
     {   size_t const k = nondet_mem_index();
-        __CPROVER_assume(k < n);
+        __CPROVER_assume(k >= HEAD_PRECISE && k < n);
         dd[k] = nondet_mem_byte();
     }
     return d;
@@ -71,8 +84,7 @@ void* memset(void* d, int c, size_t n)
     if (n == 0) return d;
     if (n > PRECISE_MAX) { g_memset_last_ptr = d; g_memset_last_val = c; g_memset_last_len = n; g_memset_large_calls++; }
     if (n <= PRECISE_MAX) {
-        S1(0) S1(1) S1(2) S1(3) S1(4) S1(5) S1(6) S1(7) S1(8) S1(9) S1(10) S1(11) S1(12) S1(13) S1(14) S1(15)
-        S1(16) S1(17) S1(18) S1(19) S1(20) S1(21) S1(22) S1(23) S1(24) S1(25) S1(26) S1(27) S1(28) S1(29) S1(30) S1(31)
+        S1(0) S1(1) S1(2) S1(3) S1(4) S1(5) S1(6) S1(7) S1(8) S1(9) S1(10) S1(11) S1(12) S1(13) S1(14) S1(15) S1(16) S1(17) S1(18) S1(19) S1(20) S1(21) S1(22) S1(23) S1(24) S1(25) S1(26) S1(27) S1(28) S1(29) S1(30) S1(31)
         return d;
     }
     __CPROVER_assert(__CPROVER_w_ok(d, n), "memset: destination range writable");
